@@ -143,7 +143,13 @@ class Seq:
         inner = ", ".join(show_part(p) for p in self.parts)
         if self.kind == "dict":
             return "{" + inner + "}"
-        return f"cat({inner})" if self.kind in ("bytes", "str") else f"[{inner}]"
+        if self.kind in ("bytes", "str"):
+            if not self.parts:
+                return "b''" if self.kind == "bytes" else "''"  # nothing concatenated
+            if len(self.parts) == 1 and self.parts[0][0] == "e":
+                return inner  # one piece is that piece
+            return f"cat({inner})"
+        return f"[{inner}]"
 
 
 class Tup:
@@ -182,6 +188,44 @@ _LOOP_VAR = re.compile(r"(?<![A-Za-z0-9_])_[ie]\d+(?![A-Za-z0-9_])")
 def _loop_var(t: str) -> bool:
     """The text mentions an element / index variable of a summarised loop (_e1, _i2)."""
     return bool(_LOOP_VAR.search(t))
+
+
+def _scan_condterm(t: str, ctext: str):
+    """(start, end, a, b) of a conditional term `(a if ctext else b)` inside t, located by its shape (balanced
+    parentheses around ` if ctext else `); None if there is none."""
+    needle = f" if {ctext} else "
+    pos = t.find(needle)
+    while pos != -1:
+        # opening parenthesis: the first unmatched "(" to the left
+        depth, i, quote = 0, pos - 1, None
+        start = None
+        while i >= 0:
+            ch = t[i]
+            if ch in ")]}":
+                depth += 1
+            elif ch in "([{":
+                if depth == 0:
+                    start = i if ch == "(" else None
+                    break
+                depth -= 1
+            i -= 1
+        if start is not None:
+            depth, j = 0, pos + len(needle)
+            end = None
+            while j < len(t):
+                ch = t[j]
+                if ch in "([{":
+                    depth += 1
+                elif ch in ")]}":
+                    if depth == 0:
+                        end = j if ch == ")" else None
+                        break
+                    depth -= 1
+                j += 1
+            if end is not None:
+                return start, end + 1, t[start + 1:pos], t[pos + len(needle):end]
+        pos = t.find(needle, pos + 1)
+    return None
 
 
 def neg_text(ctext: str) -> str:
@@ -415,6 +459,13 @@ class Summariser:
             for ctxt, (c, a, b) in self.condterms.items():
                 if ctxt in t and c in self.atoms and not _loop_var(c):
                     return c
+        # conditional terms whose text changed after an inner one was decided
+        for t in self._texts(p):
+            if " if " not in t:
+                continue
+            for c in {c for c, _, _ in self.condterms.values()}:
+                if c in self.atoms and not _loop_var(c) and _scan_condterm(t, c) is not None:
+                    return c
         return None
 
     def _specialise(self, p, ctext, branch: bool):
@@ -439,9 +490,35 @@ class Summariser:
             for ctxt, (c, a, b) in sorted(self.condterms.items(), key=lambda kv: -len(kv[0])):
                 if c == ctext and ctxt in t:
                     t = t.replace(ctxt, a if branch else b)
+            # terms whose text changed since they were built (an inner term was decided earlier) are found by their shape
+            for _ in range(50):
+                hit = _scan_condterm(t, ctext)
+                if hit is None:
+                    break
+                start, end, a, b = hit
+                t = t[:start] + (a if branch else b) + t[end:]
             return t
 
-        if p.value is not None:
+        def sub_parts(parts):
+            res = []
+            for part in parts:
+                if part[0] == "e":
+                    res.append(("e", sub(part[1])))
+                elif part[0] == "rep":
+                    res.append(("rep", sub(part[1]), tuple(sub_parts(part[2]))))
+                elif part[0] == "if":
+                    if part[1] == ctext:
+                        res.extend(sub_parts(part[2] if branch else part[3]))
+                    else:
+                        res.append(("if", part[1], tuple(sub_parts(part[2])), tuple(sub_parts(part[3]))))
+                else:
+                    res.append(part)
+            return res
+
+        if isinstance(p.value_obj, Seq):
+            p.value_obj = Seq(p.value_obj.kind, sub_parts(p.value_obj.parts))
+            p.value = text(p.value_obj)
+        elif p.value is not None:
             p.value = sub(p.value)
             if isinstance(p.value_obj, (Term, Poly)):
                 p.value_obj = Term(p.value)
@@ -854,7 +931,13 @@ class Summariser:
         if isinstance(st, ast.Raise):
             state.term = "raise"
             exc = st.exc
-            name = norm(exc.func) if isinstance(exc, ast.Call) else (norm(exc) if exc is not None else "re-raise")
+            # the exception constructor; when a local object builds it (`token.exception(...)`) the object only contributes the
+            # source location of the message, so the local's name (or which of several locals) is not part of the refusal
+            f = exc.func if isinstance(exc, ast.Call) else exc
+            if isinstance(f, ast.Attribute) and isinstance(f.value, ast.Name) and f.value.id in self._locals and f.value.id not in ("self", "cls"):
+                name = f"<local>.{f.attr}"
+            else:
+                name = norm(f) if f is not None else "re-raise"
             state.value = Term(name)
             return state
         if isinstance(st, ast.Pass):
@@ -963,7 +1046,8 @@ class Summariser:
                 bind[st.target.id] = loopval
             elif isinstance(it, ast.Call) and isinstance(it.func, ast.Name) and it.func.id == "enumerate" and isinstance(st.target, ast.Tuple) and len(st.target.elts) == 2 and all(isinstance(e, ast.Name) for e in st.target.elts):
                 base = self.canon(it.args[0], env)
-                off = self.poly(it.args[1], env) if len(it.args) > 1 else Poly.const(0)
+                start_kw = next((k.value for k in it.keywords if k.arg == "start"), None)
+                off = self.poly(it.args[1], env) if len(it.args) > 1 else (self.poly(start_kw, env) if start_kw is not None else Poly.const(0))
                 header = f"each({base})"
                 count = Poly.sym(f"len({base})")
                 inner = self.ev(it.args[0], env)
